@@ -21,8 +21,9 @@ VARIABLES l,          \* next line
           phase,      \* "run" | "fair"
           v7,         \* protocol variant of the current run (reserved token values differ)
           seen,       \* rules already reported for the current run
+          refused,    \* a send was refused (TooLongData) earlier in the current run
           bad         \* sequence of [run, line, why]
-tvars == <<l, run, skip, sub, snv, scl, del, ready, answered, last, phase, v7, seen, bad>>
+tvars == <<l, run, skip, sub, snv, scl, del, ready, answered, last, phase, v7, seen, refused, bad>>
 
 Ch == INSTANCE Channel
 E2 == <<"c", "s">>
@@ -35,20 +36,20 @@ Init ==
   /\ l = 1 /\ run = 0 /\ skip = FALSE /\ seen = {}
   /\ sub = [e \in Ch!CE |-> <<>>] /\ snv = [e \in Ch!CE |-> {}] /\ scl = [e \in Ch!CE |-> {}]
   /\ del = [e \in Ch!CE |-> <<>>] /\ ready = 0 /\ answered = FALSE
-  /\ last = NoObs /\ phase = "run" /\ v7 = FALSE /\ bad = <<>>
+  /\ last = NoObs /\ phase = "run" /\ v7 = FALSE /\ refused = FALSE /\ bad = <<>>
 
 Reset(ev) ==
   /\ run' = run + 1 /\ skip' = FALSE
   /\ sub' = [e \in Ch!CE |-> <<>>] /\ snv' = [e \in Ch!CE |-> {}] /\ scl' = [e \in Ch!CE |-> {}]
   /\ del' = [e \in Ch!CE |-> <<>>]
   /\ ready' = (IF ev.online THEN 1 ELSE 0) /\ answered' = ev.online
-  /\ last' = NoObs /\ phase' = "run" /\ v7' = ev.v7 /\ seen' = {}
+  /\ last' = NoObs /\ phase' = "run" /\ v7' = ev.v7 /\ seen' = {} /\ refused' = FALSE
   /\ UNCHANGED bad
 
-Reject(why) ==
-  /\ bad' = Append(bad, [run |-> run, line |-> l, why |-> why])
+Reject(whys) ==
+  /\ bad' = bad \o [i \in 1..Len(whys) |-> [run |-> run, line |-> l, why |-> whys[i]]]
   /\ skip' = TRUE
-  /\ UNCHANGED <<run, sub, snv, scl, del, ready, answered, last, phase, v7, seen>>
+  /\ UNCHANGED <<run, sub, snv, scl, del, ready, answered, last, phase, v7, seen, refused>>
 
 \* endpoint whose application receives the events of this step
 Target(ev) == IF ev.a \in {"deliver", "dup"} THEN Ch!CPeer(ev.act.from)
@@ -86,6 +87,7 @@ Step(ev) ==
      /\ last' = o
      /\ bad' = bad \o [i \in 1..Len(newq) |-> [run |-> run, line |-> l, why |-> newq[i].why]]
      /\ seen' = seen \cup {w.id : w \in new}
+     /\ refused' = (refused \/ ev.res = "TooLongData")
      /\ UNCHANGED <<run, skip, phase, v7>>
 
 Quiescent ==
@@ -99,12 +101,13 @@ Next ==
   /\ l' = l + 1
   /\ LET ev == Rec[l] IN
      IF ev.a = "reset" THEN Reset(ev)
-     ELSE IF skip THEN UNCHANGED <<run, skip, sub, snv, scl, del, ready, answered, last, phase, v7, seen, bad>>
-     ELSE IF ev.a = "fair" THEN phase' = "fair" /\ UNCHANGED <<run, skip, sub, snv, scl, del, ready, answered, last, v7, seen, bad>>
-     ELSE IF ev.a = "end" THEN (IF Quiescent THEN UNCHANGED <<run, skip, sub, snv, scl, del, ready, answered, last, phase, v7, seen, bad>>
-                                ELSE Reject("C02: not quiescent after the fair suffix"))
+     ELSE IF skip THEN UNCHANGED <<run, skip, sub, snv, scl, del, ready, answered, last, phase, v7, seen, refused, bad>>
+     ELSE IF ev.a = "fair" THEN phase' = "fair" /\ UNCHANGED <<run, skip, sub, snv, scl, del, ready, answered, last, v7, seen, refused, bad>>
+     ELSE IF ev.a = "end" THEN (IF Quiescent THEN UNCHANGED <<run, skip, sub, snv, scl, del, ready, answered, last, phase, v7, seen, refused, bad>>
+                                ELSE Reject(<<"C02: not quiescent after the fair suffix">>
+                                            \o (IF refused THEN <<"C04: after a refused send the connection no longer carries what is submitted (not usable)">> ELSE <<>>)))
      ELSE IF ev.res = "skipped"         \* a schedule step that does not apply to what the code really did: skipped
-          THEN UNCHANGED <<run, skip, sub, snv, scl, del, ready, answered, last, phase, v7, seen, bad>>
+          THEN UNCHANGED <<run, skip, sub, snv, scl, del, ready, answered, last, phase, v7, seen, refused, bad>>
      ELSE Step(ev)
 
 TraceSpec == Init /\ [][Next]_tvars
